@@ -120,10 +120,10 @@ func (x *Exec) applyContract(st *State, fr *Frame, site ssa.Instruction, c *Cont
 	var panicCond Tm = tFalse
 	exact := false
 	if c.PanicsIff != nil {
-		panicCond = env.evalBool(*c.PanicsIff)
+		panicCond = env.withPol(0).evalBool(*c.PanicsIff)
 		exact = true
 	} else if c.MayPanic != nil {
-		panicCond = env.evalBool(*c.MayPanic)
+		panicCond = env.withPol(0).evalBool(*c.MayPanic)
 	}
 	traceBase := len(st.trace)
 	preHeap := env.oldHeap
@@ -211,7 +211,7 @@ func (x *Exec) applyContract(st *State, fr *Frame, site ssa.Instruction, c *Cont
 // antecedents (evaluated in the pre-state).
 func (x *Exec) quantifyForalls(env *CEnv, c *Contract, unbound []ParamSpec, qreq []Clause, cl Clause) Tm {
 	if len(unbound) == 0 {
-		return env.evalBool(cl)
+		return env.hyp(cl)
 	}
 	used := false
 	ast.Inspect(cl.Expr, func(n ast.Node) bool {
@@ -225,7 +225,7 @@ func (x *Exec) quantifyForalls(env *CEnv, c *Contract, unbound []ParamSpec, qreq
 		return true
 	})
 	if !used {
-		return env.evalBool(cl)
+		return env.hyp(cl)
 	}
 	m := env.st.m
 	sub := env.sub()
@@ -250,15 +250,28 @@ func (x *Exec) quantifyForalls(env *CEnv, c *Contract, unbound []ParamSpec, qreq
 	pre := *sub
 	pre.inOld = true
 	for _, r := range qreq {
-		ante = append(ante, pre.evalBool(r))
+		ante = append(ante, pre.withPol(-1).evalBool(r))
 	}
-	body := sub.evalBool(cl)
-	return mkForall(strings.Join(bvs, " "), implies(and(append(sides, ante...)...), body))
+	body := sub.hyp(cl)
+	return mkForall(strings.Join(bvs, " "), implies(and(ante...), and(append(sides, body)...)))
 }
 
 // havocModifies replaces the heap arrays named by a modifies list.
 func (x *Exec) havocModifies(st *State, c *Contract, items []string, env *CEnv) {
 	for _, it := range items {
+		if strings.TrimSpace(it) == "all" {
+			keep := map[string]Tm{}
+			for _, pr := range c.Preserves {
+				for _, hk := range x.modifiesKeys(st, c.Pkg, pr) {
+					keep[hk.key] = st.heapGet(hk.key, hk.sort)
+				}
+			}
+			st.havocAll()
+			for k2, v := range keep {
+				st.heap[k2] = v
+			}
+			continue
+		}
 		for _, key := range x.modifiesKeys(st, c.Pkg, it) {
 			if _, ok := st.sorts[key.key]; !ok {
 				st.sorts[key.key] = key.sort
@@ -286,6 +299,7 @@ func (x *Exec) modifiesKeys(st *State, pkg, item string) []heapKey {
 	var out []heapKey
 	switch {
 	case item == "all":
+		out = append(out, heapKey{"*all*", SInt})
 		for _, k := range st.heapKeys() {
 			if strings.HasPrefix(k, "B|") {
 				continue // boxes are immutable
@@ -652,6 +666,33 @@ func (x *Exec) loopHeader(st *State, fr *Frame, h *ssa.BasicBlock, pred *ssa.Bas
 					fmt.Sprintf("loop %d variant %q decreases in %s", ord, spec.Decr.Src, fr.fn.Name()))
 			}
 		}
+		// declared loop frame: arrays outside 'loop n modifies' must be unchanged on a continuing iteration
+		if spec != nil && len(spec.Modifies) > 0 && rec.heap != nil {
+			allowed := map[string]bool{}
+			for _, it := range spec.Modifies {
+				if it == "none" {
+					continue
+				}
+				for _, hk := range x.modifiesKeys(st, fr.contract.Pkg, it) {
+					allowed[hk.key] = true
+				}
+			}
+			for _, k2 := range st.heapKeys() {
+				cur, ok := st.heap[k2]
+				if !ok || allowed[k2] || strings.HasPrefix(k2, "B|") {
+					continue
+				}
+				old, ok := rec.heap[k2]
+				if !ok {
+					old = st.viewGet(rec.heap, k2, st.sorts[k2])
+				}
+				if cur.S == old.S {
+					continue
+				}
+				x.emit(st, fmt.Sprintf("loop_frame:%s.%s", label, k2), "frame", eq(cur, old),
+					fmt.Sprintf("loop %d of %s leaves heap array %s unchanged (not in its modifies clause)", ord, fr.fn.Name(), k2))
+			}
+		}
 		if len(st.trace) > rec.traceLen && (spec == nil || !spec.Emits) {
 			x.emit(st, fmt.Sprintf("loop_emits:%s", label), "inv_step", tFalse,
 				fmt.Sprintf("loop %d of %s emits events on a continuing iteration but has no 'loop %d emits' clause", ord, fr.fn.Name(), ord))
@@ -682,12 +723,24 @@ func (x *Exec) loopHeader(st *State, fr *Frame, h *ssa.BasicBlock, pred *ssa.Bas
 	var keys []heapKey
 	if spec != nil && len(spec.Modifies) > 0 {
 		for _, it := range spec.Modifies {
+			if it == "none" {
+				continue
+			}
 			keys = append(keys, x.modifiesKeys(st, fr.contract.Pkg, it)...)
 		}
 	} else {
 		keys = x.loopWrites(st, fr, li.body[h])
 	}
 	for _, hk := range keys {
+		if hk.key == "*all*" {
+			st.havocAll()
+			break
+		}
+	}
+	for _, hk := range keys {
+		if hk.key == "*all*" {
+			continue
+		}
 		if _, ok := st.sorts[hk.key]; !ok {
 			st.sorts[hk.key] = hk.sort
 		}
@@ -699,10 +752,10 @@ func (x *Exec) loopHeader(st *State, fr *Frame, h *ssa.BasicBlock, pred *ssa.Bas
 		st.alloc = na
 	}
 	env = x.frameEnv(st, fr)
-	rec := loopRec{header: h.Index, frameID: fr.id, traceLen: len(st.trace)}
+	rec := loopRec{header: h.Index, frameID: fr.id, traceLen: len(st.trace), heap: st.heapCopy()}
 	if spec != nil {
 		for _, inv := range spec.Inv {
-			st.assume(env.evalBool(inv))
+			st.assume(env.hyp(inv))
 		}
 		if spec.Decr != nil {
 			d := env.typed(env.eval(spec.Decr.Expr), types.Typ[types.Int])
